@@ -190,7 +190,7 @@ class World:
                     with open(full, "wb") as fh:
                         fh.write(content)
                 else:
-                    if "<SP" in content:
+                    if "<SP" in content or "<ROOT>" in content:
                         for j in range(len(search_paths)):
                             content = content.replace(f"<SP{j}>", os.path.join(self.root, f"sp{j}"))
                         content = content.replace("<ROOT>", self.root)
